@@ -15,7 +15,7 @@ RULE = ('segment alphabet = {zero speed, 20 mph from 90, 0, 225 deg} x until {20
         'segments (quick: 0..2 plus a slice of 3); each cell fires every distinct ordering of the multiset, its mirror image, its extension by a zero-speed '
         'segment and every truncation to a sorted prefix, to 100 yd with 5-yd rows; sock cells = every sorted list x every increasing query sequence over '
         '{0,19,20,21,59,60,61,100} yd through the real _WindSock; ode cells = every ordered two-segment list against the RK4 reference; edit cells = lists edited in place after the shot was built (until-distances swapped, segment appended, '
-        'list re-assigned, speed zeroed) and fired again vs a shot built from the edited values; '
+        'list re-assigned, speed zeroed) and fired again vs a shot built from the edited values; zeroing cells = every multiset of 1..2 (thorough 3) segments: a slow projectile zeroed at 100 yd under the list, fired back (C02 allowance), every ordering and the mirror image zeroed again (bitwise); '
         'non-trivial = list with a non-zero wind and at least two segments')
 ASSUMPTIONS = ['bitwise comparisons are made between runs in the same process', 'a zero-length segment (duplicate until-distance) may be held for at most one query by the wind cursor (lenient)',
                'ODE clause uses the C01 oracle e <= 4 Delta* + floor']
@@ -294,7 +294,51 @@ def default_isolation(cell):
     return {'v': out, 'n': 5, 'states': 5, 'transitions': 5, 'traces': 1, 'nt': cell}
 
 
-PARTS = {'lists': lists, 'sense': sense, 'sock': sock, 'ode': ode_part, 'edit': edit, 'default_isolation': default_isolation}
+def zeroing(cell):
+    """the segments act in EVERY integration, also in the repeated passes of a zero search: the elevation found under a wind list must hit the aim
+    point when fired under that list (slow projectile, so that a pass flown in the wrong segment misses by 10-100 x the allowance), must not depend
+    on the order the segments are given in, nor on the mirror image of the directions"""
+    import py_ballisticcalc as pb
+    U = pb.Unit
+    base = [tuple(s) for s in cell]
+    calc = make_calc()
+    ZD = 100.0
+
+    def shot_for(segs, mirror=False):
+        return pb.Shot(pb.Weapon(U.Inch(2), U.Inch(0)), pb.Ammo(pb.DragModel(0.1, pb.TableG1), U.FPS(900)), winds=[W(tuple(x), mirror) for x in segs])
+    out = []
+    n = 0
+    sh = shot_for(base)
+    z = calc.set_weapon_zero(sh, U.Yard(ZD))
+    n += 1
+    rows = calc.fire(sh, U.Yard(ZD), U.Yard(ZD)).trajectory
+    at = [r for r in rows if abs((r.distance >> U.Yard) - ZD) < 1e-9]
+    if not at:
+        out.append({'msg': f'winds {base}: trajectory fired after zeroing has no row at {ZD} yd', 'key': None})
+    else:
+        p_ = at[-1]
+        miss = abs(p_.target_drop >> U.Foot)
+        bound = 5e-6 + 0.5 * abs(math.tan(p_.angle >> U.Radian)) + 1e-9     # the C02 allowance: accuracy + one maximum step x slope
+        if miss > bound:
+            out.append({'msg': f'winds {base}: zeroed at {ZD} yd under these winds, but the trajectory fired under the same winds is {miss * 12:.4f} in from the '
+                               f'sight line there (allowed {bound * 12:.4f} in): the zero search did not fly through the segments the way fire does', 'key': None})
+    sb = usort(base)
+    for p in set(itertools.permutations(base)):
+        if list(p) == base or usort(list(p)) != sb:
+            continue
+        n += 1
+        z2 = calc.set_weapon_zero(shot_for(list(p)), U.Yard(ZD))
+        if bits(z2.raw_value) != bits(z.raw_value):
+            out.append({'msg': f'zero at {ZD} yd differs between winds {list(p)} and {base} (same segments, different order given): {z2 >> U.MOA!r} vs {z >> U.MOA!r} MOA', 'key': None})
+    n += 1
+    zm = calc.set_weapon_zero(shot_for(base, True), U.Yard(ZD))
+    if bits(zm.raw_value) != bits(z.raw_value):
+        out.append({'msg': f'zero at {ZD} yd changes when all wind directions of {base} are mirrored left-right: {zm >> U.MOA!r} vs {z >> U.MOA!r} MOA', 'key': None})
+    nontrivial = len(base) >= 2 and any(x[0] != 'Z' for x in base)
+    return {'v': out[:3], 'n': n, 'states': n, 'transitions': n, 'traces': n, 'nt': cell if nontrivial else None}
+
+
+PARTS = {'lists': lists, 'sense': sense, 'sock': sock, 'ode': ode_part, 'edit': edit, 'default_isolation': default_isolation, 'zeroing': zeroing}
 
 
 def multisets(k):
@@ -313,4 +357,5 @@ def plan(tier):
     ed = [[m, k] for m in multisets(2) + (m3[::9] if tier == 'quick' else m3) for k in ('swap_until', 'append', 'assign', 'zero_speed', 'redisplay_first_inch', 'redisplay_last_mile', 'redisplay_first_km')
           if any(x[0] != 'Z' for x in m)]
     di = [[how, mph] for how in ('none', 'empty', 'setter') for mph in (20, 5)]
-    return [('lists', ls), ('sense', se), ('sock', sk), ('ode', od), ('edit', ed), ('default_isolation', di)]
+    zr = multisets(1) + multisets(2) + (m3 if tier == 'thorough' else m3[::12])
+    return [('lists', ls), ('sense', se), ('sock', sk), ('ode', od), ('edit', ed), ('default_isolation', di), ('zeroing', zr)]
